@@ -119,9 +119,9 @@ Theorem C12_lex_parse_total :
   forall is_space is_letter is_digit : N -> bool,
     is_space RuneError = false -> is_letter RuneError = false -> is_digit RuneError = false ->
     forall (is_number : N -> bool) (ftype : bytes -> N) (to_lower : N -> N) (case_sensitive : bool)
-           (q : bytes),
-    seqql_parse is_space is_letter is_digit is_number ftype to_lower case_sensitive q = RErr \/
-    exists a, seqql_parse is_space is_letter is_digit is_number ftype to_lower case_sensitive q
+           (maxd : option nat) (q : bytes),
+    seqql_parse is_space is_letter is_digit is_number ftype to_lower case_sensitive maxd q = RErr \/
+    exists a, seqql_parse is_space is_letter is_digit is_number ftype to_lower case_sensitive maxd q
               = ROk a.
 Proof. exact seqql_parse_total. Qed.
 Print Assumptions C12_lex_parse_total.
@@ -178,14 +178,14 @@ Definition ex_ftype (f : bytes) : N :=
   if bytes_eqb f [107%N] then 1%N else if bytes_eqb f [116%N] then 2%N else 0%N.
 Definition ex_lower (r : N) : N := if in_range 65 90 r then (r + 32)%N else r.
 Example C12_lex_nonvacuous :
-  seqql_parse ex_space ex_letter ex_digit ex_digit ex_ftype ex_lower false
+  seqql_parse ex_space ex_letter ex_digit ex_digit ex_ftype ex_lower false (Some max_nesting_depth)
     [107; 58; 34; 97; 92; 42; 98; 42; 34; 32; 97; 110; 100; 32; 110; 111; 116; 32;
      116; 58; 39; 120; 32; 121; 39; 32; 35; 32; 99]%N
   = ROk (NAndN (AndN (Leaf 0) (Leaf 0)) (Leaf 0))
   /\ option_map (@length ltok)
        (match lex ex_space ex_letter ex_digit [107; 58; 34; 97; 92; 34]%N with
         | ROk l => Some l | _ => None end) = Some 6
-  /\ seqql_parse ex_space ex_letter ex_digit ex_digit ex_ftype ex_lower false [107; 58; 34; 97; 92; 34]%N = RErr
+  /\ seqql_parse ex_space ex_letter ex_digit ex_digit ex_ftype ex_lower false None [107; 58; 34; 97; 92; 34]%N = RErr
   (* k:[*, 'Bob'] : the bounds are the wildcard symbol and the folded text bob *)
   /\ (do l <- lex ex_space ex_letter ex_digit [107; 58; 91; 42; 44; 32; 39; 66; 111; 98; 39; 93]%N;
       range_view ex_letter ex_digit ex_lower false l) = ROk (TmSym, TmText [98; 111; 98]%N).
@@ -208,14 +208,15 @@ Proof. vm_compute. repeat split. Qed.
    2 * (number of runes) + 3 for parseSubexpr/parseExpr and (remaining runes) + 1 for every inner
    loop - is never exhausted (every successful parseSubexpr consumes at least one rune, every
    iteration of parseExpr's loop an operator and an operand, every inner loop iteration a rune).
-   Recursion depth: parseSubexpr recurses once per `(` and per `not`; the code has NO depth limit
-   (the depth parameter only decides whether `)` ends the expression), so the depth is bounded by
-   the number of runes only. Go's 1 GB goroutine stack is outside the model: see the manifest. *)
+   maxd = the nesting limit (any, also None = the code before maxNestingDepth existed); the last
+   argument None = the idealised unbounded goroutine stack. For a FINITE stack see
+   C12_nesting_bounded below. *)
 Theorem C12_legacy_lex_total :
   forall (is_space is_letter is_number : N -> bool) (to_lower : N -> N) (case_sensitive : bool)
-         (ftype : bytes -> N) (q : bytes),
-    legacy_parse is_space is_letter is_number to_lower case_sensitive ftype q = RErr \/
-    exists a, legacy_parse is_space is_letter is_number to_lower case_sensitive ftype q = ROk a.
+         (ftype : bytes -> N) (maxd : option nat) (q : bytes),
+    legacy_parse is_space is_letter is_number to_lower case_sensitive ftype maxd None q = RErr \/
+    exists a, legacy_parse is_space is_letter is_number to_lower case_sensitive ftype maxd None q
+              = ROk a.
 Proof. exact legacy_parse_total. Qed.
 Print Assumptions C12_legacy_lex_total.
 
@@ -237,11 +238,11 @@ Definition ex_q1 : bytes :=
   [107;58;34;65;32;98;34;32;97;110;100;32;110;111;116;32;116;58;120;92;32;121;32;111;114;32;40;
    107;58;91;97;32;84;79;32;42;93;41]%N.
 Example C12_legacy_nonvacuous :
-  legacy_parse ex_space ex_letter ex_digit ex_lower false ex_ftype ex_q1
+  legacy_parse ex_space ex_letter ex_digit ex_lower false ex_ftype (Some max_nesting_depth) None ex_q1
   = ROk (OrN (NAndN (AndN (Leaf 1) (Leaf 2)) (Leaf 0)) (Leaf 3),
          [LLit [107%N] [TmText [97%N; 32%N; 98%N]]; LLit [116%N] [TmText [120%N]];
           LLit [116%N] [TmText [121%N]]; LRng [107%N] (TmText [97%N]) TmSym true true])
-  /\ legacy_parse ex_space ex_letter ex_digit ex_lower false ex_ftype [107;58;34;97;92]%N = RErr
+  /\ legacy_parse ex_space ex_letter ex_digit ex_lower false ex_ftype None None [107;58;34;97;92]%N = RErr
   /\ legacy_agg ex_space ex_letter ex_digit ex_lower false [107;58;97;42;66]%N
      = ROk (Some (LLit [107%N] [TmText [97%N]; TmSym; TmText [98%N]])).
 Proof. vm_compute. repeat split. Qed.
@@ -254,12 +255,14 @@ Proof. vm_compute. repeat split. Qed.
    same query (not only the same shape: leaves are indices into the same leaf table) or, for the
    structural errors the tokenizer does not reject (end of input where an operand or `)` is
    expected), the same error. So C12_parse_denotes*, C12_propagate_not_sound and
-   C12_parse_total_tokens speak about raw legacy strings. *)
+   C12_parse_total_tokens speak about raw legacy strings. The token-level parser is the GRAMMAR: it
+   has no nesting limit, so the statement is about the parser without limit (None None); the parser
+   with the limit agrees with it or reports the nesting error: C12_nesting_limit_only_rejects. *)
 Theorem C12_legacy_lex_refines_tokens :
   forall (is_space is_letter is_number : N -> bool) (to_lower : N -> N) (case_sensitive : bool)
          (ftype : bytes -> N) (q : bytes) ts lv,
     legacy_lex is_space is_letter is_number to_lower case_sensitive ftype q = ROk (ts, lv) ->
-    legacy_parse is_space is_letter is_number to_lower case_sensitive ftype q
+    legacy_parse is_space is_letter is_number to_lower case_sensitive ftype None None q
     = match parse ts with Ok a => ROk (a, lv) | Err => RErr | OutOfFuel => RFuel end.
 Proof. exact legacy_refines. Qed.
 Print Assumptions C12_legacy_lex_refines_tokens.
@@ -270,7 +273,8 @@ Theorem C12_legacy_raw_denotes :
   forall (is_space is_letter is_number : N -> bool) (to_lower : N -> N) (case_sensitive : bool)
          (ftype : bytes -> N) (q : bytes) e lv,
     legacy_lex is_space is_letter is_number to_lower case_sensitive ftype q = ROk (render_min e, lv) ->
-    exists t, legacy_parse is_space is_letter is_number to_lower case_sensitive ftype q = ROk (t, lv)
+    exists t, legacy_parse is_space is_letter is_number to_lower case_sensitive ftype None None q
+              = ROk (t, lv)
               /\ forall v, eval v t = den v e.
 Proof. exact legacy_raw_denotes. Qed.
 Print Assumptions C12_legacy_raw_denotes.
@@ -288,3 +292,74 @@ Example C12_legacy_refines_nonvacuous :
           with ROk x => x | _ => ([], []) end)
      = render_min (EOr (EAtom 0) (ENot (EText 1 [2]))).
 Proof. vm_compute. split; reflexivity. Qed.
+
+(* ---------------------------------------------------------------------------------------------
+   Nesting limit (parser/query_parser.go: maxNestingDepth, commit 712b1a1). parseSubexpr counts its
+   own frames (qp.level, one per open `(` and per pending NOT) and reports an error beyond the
+   limit; parseSeqQLSubexpr does the same with lex.level. Legacy.v carries the level through
+   parseSubexpr/parseExpr and has a second parameter, the number of parseSubexpr frames the
+   goroutine stack can hold: entering a frame beyond it is the fatal stack overflow (RPanic). *)
+
+(* For ALL byte strings, oracles and mappings: with nesting limit m, a stack that holds m + 1
+   frames is never exceeded - the result is a query or an error, whatever the length of the input
+   (the frame at level m + 1 exists: it is the one that reports the error). *)
+Theorem C12_nesting_bounded :
+  forall (is_space is_letter is_number : N -> bool) (to_lower : N -> N) (case_sensitive : bool)
+         (ftype : bytes -> N) (m s : nat) (q : bytes), m + 1 <= s ->
+    legacy_parse is_space is_letter is_number to_lower case_sensitive ftype (Some m) (Some s) q = RErr \/
+    exists a, legacy_parse is_space is_letter is_number to_lower case_sensitive ftype (Some m) (Some s) q
+              = ROk a.
+Proof. exact legacy_nesting_bounded. Qed.
+Print Assumptions C12_nesting_bounded.
+
+(* Anything nested deeper is rejected: a sub-expression entered with m frames already on the stack
+   returns the error at once (legacy parser), and the SeqQL walk rejects an operand at that level. *)
+Theorem C12_nesting_rejected :
+  forall (is_space is_letter is_number : N -> bool) (to_lower : N -> N) (case_sensitive : bool)
+         (ftype : bytes -> N) (m : nat) (stack : option nat) data f d pos lv lvl,
+    m <= lvl -> over stack (S lvl) = false ->
+    bsub is_space is_letter is_number to_lower case_sensitive ftype (Some m) stack data (S f) d pos lv lvl
+    = RErr.
+Proof. exact bsub_rejects. Qed.
+Print Assumptions C12_nesting_rejected.
+
+Theorem C12_nesting_rejected_seqql :
+  forall (is_letter is_digit is_number : N -> bool) (ftype : bytes -> N) (to_lower : N -> N)
+         (case_sensitive : bool) (maxd : option nat) m f t r depth bases base pending,
+    maxd = Some m -> m <= base + pending ->
+    glue is_letter is_digit is_number ftype to_lower case_sensitive maxd (S f) (t :: r) depth true
+         bases base pending = RErr.
+Proof. exact glue_rejects. Qed.
+Print Assumptions C12_nesting_rejected_seqql.
+
+(* The limit only rejects: the parser with a limit returns the nesting error or exactly what the
+   parser without limit returns (so every theorem about accepted queries carries over). *)
+Theorem C12_nesting_limit_only_rejects :
+  forall (is_space is_letter is_number : N -> bool) (to_lower : N -> N) (case_sensitive : bool)
+         (ftype : bytes -> N) (maxd : option nat) (q : bytes),
+    legacy_parse is_space is_letter is_number to_lower case_sensitive ftype maxd None q = RErr \/
+    legacy_parse is_space is_letter is_number to_lower case_sensitive ftype maxd None q
+    = legacy_parse is_space is_letter is_number to_lower case_sensitive ftype None None q.
+Proof. exact legacy_limit_or_v0. Qed.
+Print Assumptions C12_nesting_limit_only_rejects.
+
+(* `_v0` = the code before the limit (maxd = None). Its recursion depth grows with the input: on a
+   stack of 50 frames the query of 50 brackets around k:v overflows (RPanic), 40 brackets parse;
+   with limit 10 both are errors and 9 brackets parse (the leaf is at level 10). SeqQL likewise. *)
+Definition legacy_parse_v0 is_space is_letter is_number to_lower case_sensitive ftype stack q :=
+  legacy_parse is_space is_letter is_number to_lower case_sensitive ftype None stack q.
+Definition ex_nest (n : nat) : bytes := repeat 40%N n ++ [107; 58; 118]%N ++ repeat 41%N n.
+Example C12_nesting_v0_unbounded :
+  legacy_parse_v0 ex_space ex_letter ex_digit ex_lower false ex_ftype (Some 50) (ex_nest 50) = RPanic
+  /\ (exists a, legacy_parse_v0 ex_space ex_letter ex_digit ex_lower false ex_ftype (Some 50) (ex_nest 40)
+                = ROk a)
+  /\ legacy_parse ex_space ex_letter ex_digit ex_lower false ex_ftype (Some 10) (Some 11) (ex_nest 50) = RErr
+  /\ legacy_parse ex_space ex_letter ex_digit ex_lower false ex_ftype (Some 10) (Some 11) (ex_nest 10) = RErr
+  /\ (exists a, legacy_parse ex_space ex_letter ex_digit ex_lower false ex_ftype (Some 10) (Some 11)
+                             (ex_nest 9) = ROk a)
+  /\ seqql_parse ex_space ex_letter ex_digit ex_digit ex_ftype ex_lower false (Some 10) (ex_nest 10) = RErr
+  /\ (exists a, seqql_parse ex_space ex_letter ex_digit ex_digit ex_ftype ex_lower false (Some 10)
+                            (ex_nest 9) = ROk a)
+  /\ (exists a, seqql_parse ex_space ex_letter ex_digit ex_digit ex_ftype ex_lower false None
+                            (ex_nest 50) = ROk a).
+Proof. vm_compute. repeat split; eexists; reflexivity. Qed.
